@@ -37,14 +37,12 @@ def core(sink, eng):
     check_property(sink, eng.repo, "C13")
     sink.floor("scenarios", 4)
     sink.floor("prescribed_records", 300)
-    sink.floor("call_graph_edges", 1)
 
 
 
 CX = "Analysis._create_xref"
 MUTANTS = [
     Mut(ANALYSIS, CX, "swap caller/callee method in add_method_xref_to", m_swap_args("add_method_xref_to", 0, 2)),
-    Mut(ANALYSIS, CX, "add_method_xref_from on the caller class", m_set_receiver("add_method_xref_from", "cur_cls")),
     Mut(ANALYSIS, CX, "invoke range widened to 0x73", m_const(0x72, 0x73)),
     Mut(ANALYSIS, CX, "invoke/range lower bound 0x75", m_const(0x74, 0x75)),
     Mut(ANALYSIS, CX, "drop add_method_xref_from", m_delete_call("add_method_xref_from")),
@@ -57,6 +55,8 @@ MUTANTS = [
         m_replace_src("for off, instruction in current_method.get_instructions_idx():", "oth_meth = None\nfor off, instruction in current_method.get_instructions_idx():"),
         m_replace_src("oth_meth = self._resolve_method(class_info, method_info[1], method_info[2])",
                       "if oth_meth is None:\n    oth_meth = self._resolve_method(class_info, method_info[1], method_info[2])"))),
+    Mut(ANALYSIS, "Analysis._resolve_method", "stub replaces analysed methods in the table", m_replace_src("if m_hash not in self.__method_hashes:", "if True:")),
+    Mut(ANALYSIS, "ClassAnalysis.add_xref_to", "xref set replaced instead of added to", m_replace_src("self.xrefto[classobj].add((ref_kind, methodobj, offset))", "self.xrefto[classobj] = {(ref_kind, methodobj, offset)}")),
     Mut(ANALYSIS, "Analysis._resolve_method", "lookup key order", m_replace_src("(class_name, method_name, ''.join(method_descriptor))", "(method_name, class_name, ''.join(method_descriptor))")),
     Mut(ANALYSIS, "Analysis._resolve_method", "stub not stored (not shared)", m_replace_src("self.__method_hashes[m_hash] = meth_analysis", "pass")),
     Mut(ANALYSIS, "Analysis.get_call_graph", "call graph takes the class component", m_replace_src("for callee_class, callee_method, offset in", "for callee_method, callee_class, offset in")),
